@@ -24,4 +24,34 @@ CLAIMS = {
         'note': TRUST + '; assumptions: callbacks are pure (A-callback), user arrays do not overlap, class-field '
                 'type table; limits: heap is flow-insensitive (weak updates), paths k-limited to 6',
     },
+    'C07': {
+        'technique': 'static analysis: path-sensitive id typestate, sibling-table agreement, exactly-once-sink path rule, taint',
+        'text': 'Decides for every L at once (loops abstracted by fixpoints) that each node/edge id of the explicit '
+                'molecular constructions is fresh when handed to a constructor (reported F2, invisible below L=5), that '
+                'the creation / export / registration / lookup tables of the 2 x 12 node families agree, that every '
+                'non-raising path of the term functions adds exactly one edge carrying the coefficient, and that both '
+                'coefficient tensors reach both build paths.  Operator equality of the two paths is not decided.',
+        'design_ref': 'DESIGN.md 4.2, 4.6, 5 (C07)',
+        'note': TRUST + '; the get() rule trusts the naming convention a_dag~C, a_ann~A',
+    },
+    'C16': {
+        'technique': 'static analysis: dominating-guard sets vs callee asserts, may-write sets (effects engine), call reachability, affine direction algebra',
+        'text': 'Decides the structural clauses: the guards dominating the node-fusing merge contain the three fusion '
+                'conditions and every assert of merge_edges; rename/flip write every id-bearing location kind; '
+                'eids[d] <-> nids[1-d] complementarity at every site; nothing reachable from simplify can add a node '
+                'or edge (so it cannot grow the graph); add never writes the other graph and allocates above the '
+                'maximum id of both graphs.  Denotational equality of rewritten graphs is not decided.',
+        'design_ref': 'DESIGN.md 4.6, 5 (C16)',
+        'note': TRUST + '; callee resolution by the effects engine',
+    },
+    'C17': {
+        'technique': 'static analysis: id typestate, role-based AST pattern rules with definition expansion, list-length algebra',
+        'text': 'Decides the structural clauses of tree/automaton unfolding: ids unique on every path (incl. the guarded '
+                'reuse of the terminal id), site-dependent automaton edges are always read through the callable '
+                'dispatch at the site being unrolled, identity padding satisfies the callee length contract for all '
+                'counts, recursion distance bookkeeping, guards and co-indexing of the unrolled edges.  The denotation '
+                'of the resulting graph is not decided.',
+        'design_ref': 'DESIGN.md 4.2, 4.6, 5 (C17)',
+        'note': TRUST,
+    },
 }
